@@ -316,4 +316,116 @@ theorem stGood_init (cfg : Cfg) : StGood { cfg := cfg } :=
     fun sc a row h => by simp [aget] at h⟩,
    fun m hm => by cases hm⟩
 
+/-! ### a rolled-back NextAddresses: the account cache still agrees with the (restored) database -/
+
+/-- the account clause of coherence + the private-key clause: what AccountProperties / Last…Address / the next
+index depend on -/
+def AcctCoh (d : Disk) (m : Mem) : Prop :=
+  (∀ sc a ai, aget (m.scopes sc).acctInfo a = some ai → ∃ row, acctAns d sc a = .ok row ∧ InfoOK m a ai row) ∧ PrivOK d m
+
+theorem privOK_scal {d : Disk} {m m' : Mem} (h : Scal m' = Scal m) (hp : PrivOK d m) : PrivOK d m' := by
+  have h1 : m'.locked = m.locked := congrArg (·.1) h
+  have h2 : m'.watchOnly = m.watchOnly := congrArg (·.2.1) h
+  unfold PrivOK at *; rw [h1, h2]; exact hp
+
+theorem next_rollback_acct {d : Disk} {m : Mem} (hg : Good d m) (sc a n : Nat) (int : Bool) :
+    AcctCoh d (nextAddresses d m sc a n int).mem := by
+  unfold nextAddresses
+  cases hl : loadAcct d m sc a with
+  | error e => exact ⟨hg.coh.acct, hg.coh.priv⟩
+  | ok m1 =>
+    have hf := loadAcct_good hg hl
+    obtain ⟨ai, row, hc, hr, hok⟩ := hf.cached
+    have hai : acctInfoOf m1 sc a = some ai := hc
+    obtain ⟨hrow0, _⟩ := acctAns_ok_row hr
+    simp only [hai]
+    generalize hwo : (m1.watchOnly || !ai.hasEnc) = w
+    generalize hpv : (!m1.locked && !w) = pv
+    split
+    · exact ⟨hf.good.coh.acct, hf.good.coh.priv⟩
+    · split
+      · exact ⟨hf.good.coh.acct, hf.good.coh.priv⟩
+      · obtain ⟨k1, k2, k3, k4, k5, k6, k7⟩ := mkAddrs_spec a (brOf int) pv n (nextOf ai int) m1
+        generalize hr' : mkAddrs m1 a (brOf int) pv (nextOf ai int) n = r at *
+        have hc' : aget (r.1.scopes sc).acctInfo a = some ai := by rw [k1]; exact hc
+        obtain ⟨d2, m2, q1, q2, q3, q4, q5, q6, q7, q8, q9⟩ :=
+          putAndLoad_spec sc a r.2 d r.1 ai row hc' hrow0 (fun e he => (k7.acct_eq e he).1)
+        simp only [q1]
+        refine ⟨?_, privOK_scal (by rw [q7, k4]) hf.good.coh.priv⟩
+        intro sc' a' ai' h
+        rw [q3, k1] at h
+        obtain ⟨row', hr1, hok1⟩ := hf.good.coh.acct sc' a' ai' h
+        refine ⟨row', hr1, ?_⟩
+        obtain ⟨b1, b2⟩ := hf.good.hLast sc' a' ai' h
+        have hheap : ∀ id, id < m1.heapN → m2.heap id = m1.heap id := by
+          intro id hid; rw [q4 id (by rw [k2]; omega), k6 id hid]
+        obtain ⟨i1, i2, i3, i4, i5, i6, i7⟩ := hok1
+        exact ⟨i1, i2, i3, by rw [hheap _ b1]; exact i4, by rw [hheap _ b1]; exact i5,
+          by rw [hheap _ b2]; exact i6, by rw [hheap _ b2]; exact i7⟩
+
+/-- the keys `mkAddrs` issues depend only on account, branch, start and count -/
+theorem mkAddrs_keys (acct br : Nat) : ∀ (n start : Nat) (m m' : Mem) (p p' : Bool),
+    (mkAddrs m acct br p start n).2.map (fun e => AKey.chain e.acct e.br e.idx) =
+    (mkAddrs m' acct br p' start n).2.map (fun e => AKey.chain e.acct e.br e.idx) := by
+  intro n
+  induction n with
+  | zero => intro _ _ _ _ _; rfl
+  | succ n ih => intro start m m' p p'; simp only [mkAddrs, List.map_cons]; rw [ih]
+
+/-- whenever a manager whose account cache agrees with database `d` issues addresses, a manager freshly opened
+on `d` issues exactly the same ones -/
+theorem next_same_as_fresh {d : Disk} {m : Mem} (h : AcctCoh d m) (sc a n : Nat) (int : Bool) (l : List AKey)
+    (hres : (nextAddresses d m sc a n int).res = .ok l) :
+    (nextAddresses d (openMem d) sc a n int).res = .ok l := by
+  obtain ⟨hacct, hpriv⟩ := h
+  have hA := loadAcct_ans hacct hpriv sc a
+  have hF := loadAcct_ans (coherent_open d).acct (coherent_open d).priv sc a
+  cases hr : acctAns d sc a with
+  | error e =>
+    rw [hr] at hA; simp only at hA
+    unfold nextAddresses at hres; simp [hA] at hres
+  | ok row =>
+    rw [hr] at hA hF; simp only at hA hF
+    obtain ⟨m1, ai, hl, hai, hok⟩ := hA
+    obtain ⟨f1, fi, hlf, hfi, hokf⟩ := hF
+    obtain ⟨hrow0, _⟩ := acctAns_ok_row hr
+    have hnext : nextOf ai int = nextOf fi int := by
+      rw [(lastOf_info hok int).1, (lastOf_info hokf int).1]
+    have hflocked : f1.locked = true := by
+      have := scal_loadAcct hlf
+      exact (congrArg (·.1) this).trans rfl
+    unfold nextAddresses at hres ⊢
+    simp only [hl, hai] at hres
+    simp only [hlf, hfi]
+    simp only [hflocked, Bool.not_true, Bool.false_and, Bool.false_eq_true, if_false]
+    split at hres
+    · cases hres
+    · rename_i htm
+      rw [hnext] at htm
+      simp only [htm, if_false]
+      split at hres
+      · cases hres
+      · -- both loops succeed
+        generalize hwR : (m1.watchOnly || !ai.hasEnc) = wR at hres
+        generalize hpR : (!m1.locked && !wR) = pR at hres
+        obtain ⟨_, _, _, _, _, _, c7⟩ := mkAddrs_spec a (brOf int) pR n (nextOf ai int) m1
+        obtain ⟨k1, _, _, _, _, _, _⟩ := mkAddrs_spec a (brOf int) pR n (nextOf ai int) m1
+        have hcR : aget ((mkAddrs m1 a (brOf int) pR (nextOf ai int) n).1.scopes sc).acctInfo a = some ai := by
+          rw [k1]; exact hai
+        obtain ⟨d2, m2, q1, _⟩ := putAndLoad_spec sc a (mkAddrs m1 a (brOf int) pR (nextOf ai int) n).2 d
+          (mkAddrs m1 a (brOf int) pR (nextOf ai int) n).1 ai row hcR hrow0 (fun e he => (c7.acct_eq e he).1)
+        rw [q1] at hres
+        simp only [NextOut.res] at hres
+        obtain ⟨_, _, _, _, _, _, f7⟩ := mkAddrs_spec a (brOf int) false n (nextOf fi int) f1
+        obtain ⟨kf1, _, _, _, _, _, _⟩ := mkAddrs_spec a (brOf int) false n (nextOf fi int) f1
+        have hcF : aget ((mkAddrs f1 a (brOf int) false (nextOf fi int) n).1.scopes sc).acctInfo a = some fi := by
+          rw [kf1]; exact hfi
+        obtain ⟨d2', m2', q1', _⟩ := putAndLoad_spec sc a (mkAddrs f1 a (brOf int) false (nextOf fi int) n).2 d
+          (mkAddrs f1 a (brOf int) false (nextOf fi int) n).1 fi row hcF hrow0 (fun e he => (f7.acct_eq e he).1)
+        rw [q1']
+        simp only [NextOut.res]
+        cases hres
+        rw [← hnext]
+        exact congrArg Except.ok (mkAddrs_keys a (brOf int) n (nextOf ai int) f1 m1 false pR)
+
 end AddrLock
